@@ -150,7 +150,7 @@ func (g *c15Graph) files(r *RNG) (fstest.MapFS, map[string][]string) {
 		}
 		// files that must be ignored
 		if r.Chance(0.3) {
-			fs[p.dir+"/zz_test.go"] = &fstest.MapFile{Data: []byte(fmt.Sprintf("package %s\nfunc init() { println(\"BAD test file %s\") }\n", lastPart(p.path), p.path))}
+			fs[p.dir+"/"+Pick(r, []string{"zz_test.go", "aa_test.go", "m_test.go", "0_test.go"})] = &fstest.MapFile{Data: []byte(fmt.Sprintf("package %s\nfunc init() { println(\"BAD test file %s\") }\n", lastPart(p.path), p.path))}
 		}
 		if r.Chance(0.3) {
 			tag := Pick(r, []string{"!goat", "ignore", "linux", "!goat && linux", "windows || darwin"})
